@@ -1,6 +1,13 @@
 """C05 — the reconstruction is the true (non-negative) least-squares optimum."""
 import numpy as np
-from hypothesis import strategies as st, target
+from hypothesis import strategies as st
+from hypothesis import target as _target
+from hypothesis.control import currently_in_test_context
+
+
+def target(value, label=""):
+    if currently_in_test_context():  # not when a saved case is replayed outside Hypothesis
+        _target(value, label=label)
 
 from vp import gens, scene
 from vp.engine import SubCheck
